@@ -274,6 +274,13 @@ def omegaTol : α :=
 /-- the iteration cap `100` of `cond_func` -/
 def omegaMaxIter : Nat := 100
 
+/-- `jnp.isfinite(x)` with the operations at hand: `x − x` is `0` for a finite `x` and NaN for `±inf` and NaN, and
+every comparison with NaN is false -/
+def isFiniteS (x : α) : Bool := Transc.lt (x - x) 1 && Transc.lt (-(1 : α)) (x - x)
+
+/-- `jnp.where(jnp.isfinite(new), new, old)`: an update that is not finite keeps the last iterate -/
+def keepFinite (old new : Arr R α) : Arr R α := tab fun r => if isFiniteS (new r) then new r else old r
+
 /-- `lax.while_loop(cond_func, body_func, (cur, prev, it))` with
 `cond_func = max|val[0] − val[1]| > 1e-5 and val[2] < 100`,
 `body_func = (update(val[0]), val[0], val[2] + 1)`; the first argument is `100 − it`, so the
@@ -286,13 +293,14 @@ def omegaWhile (update : Arr R α → Arr R α) : Nat → Arr R α → Arr R α 
 
 /-- `_get_omega_star` (not overridden by any subclass): the loop is started at
 `(omega_dagger, omega_dagger + 1, 0)` — the previous iterate differs from the start value, so the
-fixed-point iteration runs until two iterates agree to `1e-5` or 100 steps are done.
+fixed-point iteration runs until two iterates agree to `1e-5` or 100 steps are done; an update that is not
+finite keeps the last iterate (`keepFinite`).
 (`stop_gradient` is the identity on values.) -/
 def baseGetOmegaStar (getOmegaDagger : OmegaDaggerFn α) (update : UpdateFn α) : LbHetFn α :=
   fun be c p y Wi ai =>
   let omegaStar := getOmegaDagger be p Wi
   let omegaDagger : Arr _ α := tab fun r => omegaStar r + 1
-  omegaWhile (fun om => update be c p y Wi ai om) omegaMaxIter omegaStar omegaDagger
+  omegaWhile (fun om => keepFinite om (update be c p y Wi ai om)) omegaMaxIter omegaStar omegaDagger
 
 /-- `self._get_omega_star(p_x, y, W_i, a_i)` through the method table -/
 def getOmegaStar (ops : HLinkOps α) : LbHetFn α :=
